@@ -598,4 +598,291 @@ theorem not_demanded_nil (S : Schema) : ∀ n, ¬ Demanded S [] n := by
   | descendant _ _ ih => exact ih
   | member _ _ _ ih => exact ih
 
+/-! ## the fuel of the model loop is never the limit -/
+
+theorem nodup_addName {l : List String} {n : String} (h : l.Nodup) : (addName l n).Nodup := by
+  unfold addName
+  by_cases hn : n ∈ l
+  · simp [hn, h]
+  · simp only [hn, if_false]
+    rw [List.nodup_append]
+    exact ⟨h, by simp, by intro a ha b hb; simp at hb; subst hb; intro hab; exact hn (hab ▸ ha)⟩
+
+theorem nodup_foldl_addName {ts l : List String} (h : l.Nodup) : (ts.foldl addName l).Nodup := by
+  induction ts generalizing l with
+  | nil => exact h
+  | cons t rest ih => exact ih (nodup_addName h)
+
+theorem passA_tracked_in_order {S : Schema} : ∀ (order req tr : List String),
+    ∀ x ∈ (passA S order req tr).2, x ∈ tr ∨ x ∈ order := by
+  intro order
+  induction order with
+  | nil => intro req tr x hx; exact Or.inl hx
+  | cons n rest ih =>
+    intro req tr x hx
+    unfold passA at hx
+    cases hf : factoryOf S n with
+    | none =>
+      simp only [hf] at hx
+      rcases ih req tr x hx with h | h
+      · exact Or.inl h
+      · exact Or.inr (List.mem_cons_of_mem _ h)
+    | some ft =>
+      simp only [hf] at hx
+      by_cases hin : ft ∈ req
+      · simp only [hin, if_true] at hx
+        rcases ih _ _ x hx with h | h
+        · rcases mem_addName.mp h with h' | rfl
+          · exact Or.inl h'
+          · exact Or.inr List.mem_cons_self
+        · exact Or.inr (List.mem_cons_of_mem _ h)
+      · simp only [hin, if_false] at hx
+        rcases ih req tr x hx with h | h
+        · exact Or.inl h
+        · exact Or.inr (List.mem_cons_of_mem _ h)
+
+/-- `already_marked` stays a duplicate-free list of names of the iteration order -/
+theorem unalignedPass_marked {S : Schema} {order : List String} {st st' : UState} (h : unalignedPass S order st = .ok st')
+    (hnd : st.marked.Nodup) (hsub : ∀ x ∈ st.marked, x ∈ order) :
+    st'.marked.Nodup ∧ (∀ x ∈ st'.marked, x ∈ order) ∧ st.marked.length ≤ st'.marked.length := by
+  unfold unalignedPass at h
+  simp only [bind, Except.bind] at h
+  obtain ⟨_, h2⟩ := passB_spec _ _ _ h
+  simp only at h2
+  rw [h2]
+  refine ⟨nodup_foldl_addName hnd, ?_, length_foldl_addName_le _ _⟩
+  intro x hx
+  rcases mem_foldl_addName.mp hx with hx | hx
+  · exact hsub x hx
+  · rcases passA_tracked_in_order order st.req [] x (List.mem_filter.mp hx).1 with h | h
+    · cases h
+    · exact h
+
+/-- an error of a pass is an error of its member phase (`RuntimeError: array field not handled`) -/
+def MemberPhaseError (S : Schema) (e : String) : Prop := ∃ newly st, passB S newly st = .error e
+
+theorem unalignedLoop_error {S : Schema} {order : List String} (hord : order.Nodup) : ∀ (fuel : Nat) (st : UState) (e : String),
+    st.marked.Nodup → (∀ x ∈ st.marked, x ∈ order) → order.length < fuel + st.marked.length →
+    unalignedLoop S order fuel st = .error e → MemberPhaseError S e := by
+  intro fuel
+  induction fuel with
+  | zero =>
+    intro st e hnd hsub hlen _
+    have := List.Nodup.length_le_of_subset hnd (fun x hx => hsub x hx)
+    omega
+  | succ k ih =>
+    intro st e hnd hsub hlen h
+    unfold unalignedLoop at h
+    cases hp : unalignedPass S order st with
+    | error e' =>
+      simp [hp, bind, Except.bind] at h
+      subst h
+      unfold unalignedPass at hp
+      simp only [bind, Except.bind] at hp
+      exact ⟨_, _, hp⟩
+    | ok st' =>
+      simp only [hp, bind, Except.bind] at h
+      obtain ⟨hnd', hsub', hle⟩ := unalignedPass_marked hp hnd hsub
+      by_cases heq : st'.marked.length = st.marked.length
+      · simp [heq, pure, Except.pure] at h
+      · simp only [heq, if_false] at h
+        exact ih st' e hnd' hsub' (by omega) h
+
+/-! ## monotonicity in the schema -/
+
+/-- `S'` has everything `S` has: the same name resolves to the same declaration, and every struct of `S` is a struct of `S'` -/
+structure Extends (S S' : Schema) : Prop where
+  lookup : ∀ n d, Schema.lookup S n = some d → Schema.lookup S' n = some d
+  structs : ∀ M, Decl.struct M ∈ S → Decl.struct M ∈ S'
+
+theorem factoryOf_extends {S S' : Schema} (h : Extends S S') {n ft : String} (hf : factoryOf S n = some ft) : factoryOf S' n = some ft := by
+  unfold factoryOf at *
+  cases hl : Schema.lookup S n with
+  | none => simp [hl] at hf
+  | some d =>
+    cases d with
+    | struct M =>
+      rw [h.lookup n _ hl]
+      simp only [hl] at hf ⊢
+      cases hft : M.factoryType with
+      | none => simp [hft] at hf
+      | some x =>
+        simp only [hft] at hf ⊢
+        by_cases hx : (Schema.lookup S x).isSome = true
+        · simp only [hx, if_true] at hf
+          obtain ⟨d', hd'⟩ := Option.isSome_iff_exists.mp hx
+          simp [h.lookup x d' hd', hf]
+        · simp [hx] at hf
+    | alias a => simp [hl] at hf
+    | enum e => simp [hl] at hf
+
+theorem memberTypesOf_extends {S S' : Schema} (h : Extends S S') {n t : String} (ht : t ∈ memberTypesOf S n) : t ∈ memberTypesOf S' n := by
+  unfold memberTypesOf at *
+  cases hl : Schema.lookup S n with
+  | none => simp [hl] at ht
+  | some d =>
+    cases d with
+    | struct M =>
+      rw [h.lookup n _ hl]
+      simp only [hl, List.mem_filterMap] at ht ⊢
+      obtain ⟨f, hf, hft⟩ := ht
+      refine ⟨f, hf, ?_⟩
+      cases hty : f.fieldType with
+      | named x =>
+        simp only [hty] at hft ⊢
+        cases hlx : Schema.lookup S x with
+        | none => simp [hlx] at hft
+        | some dx =>
+          rw [h.lookup x dx hlx]
+          simpa [hlx] using hft
+      | int i => simp [hty] at hft
+      | array a => simp [hty] at hft
+    | alias a => simp [hl] at ht
+    | enum e => simp [hl] at ht
+
+/-- the closure of the rules only grows when declarations and seeds are added -/
+theorem demanded_extends {S S' : Schema} {seeds seeds' : List String} (h : Extends S S') (hs : ∀ x ∈ seeds, x ∈ seeds') {n : String}
+    (hd : Demanded S seeds n) : Demanded S' seeds' n := by
+  induction hd with
+  | seed hx => exact .seed (hs _ hx)
+  | descendant hf _ ih => exact .descendant (factoryOf_extends h hf) ih
+  | member hf _ ht ih => exact .member (factoryOf_extends h hf) ih (memberTypesOf_extends h ht)
+
+theorem mapM_ok_mem {α β : Type} {f : α → Except String β} : ∀ (l : List α) (l' : List β), l.mapM f = .ok l' →
+    (∀ b ∈ l', ∃ a ∈ l, f a = .ok b) ∧ (∀ a ∈ l, ∃ b ∈ l', f a = .ok b) := by
+  intro l
+  induction l with
+  | nil => intro l' h; simp [List.mapM_nil, pure, Except.pure] at h; subst h; exact ⟨fun _ h => (by cases h), fun _ h => (by cases h)⟩
+  | cons x rest ih =>
+    intro l' h
+    rw [List.mapM_cons] at h
+    obtain ⟨b, hb, h2⟩ := dbind_eq_ok.mp h
+    obtain ⟨bs, hbs, h3⟩ := dbind_eq_ok.mp h2
+    simp [pure, Except.pure] at h3
+    subst h3
+    obtain ⟨ih1, ih2⟩ := ih _ hbs
+    refine ⟨?_, ?_⟩
+    · intro y hy
+      rcases List.mem_cons.mp hy with rfl | hy'
+      · exact ⟨x, List.mem_cons_self, hb⟩
+      · obtain ⟨a, ha, hfa⟩ := ih1 y hy'
+        exact ⟨a, List.mem_cons_of_mem _ ha, hfa⟩
+    · intro a ha
+      rcases List.mem_cons.mp ha with rfl | ha'
+      · exact ⟨b, List.mem_cons_self, hb⟩
+      · obtain ⟨y, hy, hfa⟩ := ih2 a ha'
+        exact ⟨y, List.mem_cons_of_mem _ hy, hfa⟩
+
+/-- the marks one struct contributes while it is processed -/
+theorem processStruct_marks {S : Schema} {M : Struct} {exts : List FieldExt} {marks : List String}
+    (h : processStruct S M = .ok (exts, marks)) (x : String) :
+    x ∈ marks ↔ ∃ f ∈ M.structFields, ∃ e, processField S M f = .ok (e, some x) := by
+  unfold processStruct at h
+  by_cases hph : M.fields.any Member.isPlaceholder = true
+  · simp [hph, throw, throwThe, MonadExceptOf.throw, bind, Except.bind] at h
+  · simp only [hph, Bool.false_eq_true, if_false] at h
+    obtain ⟨results, hres, h2⟩ := dbind_eq_ok.mp h
+    obtain ⟨exts', _, h3⟩ := dbind_eq_ok.mp h2
+    simp [pure, Except.pure] at h3
+    obtain ⟨_, rfl⟩ := h3
+    obtain ⟨m1, m2⟩ := mapM_ok_mem _ _ hres
+    simp only [List.mem_filterMap]
+    constructor
+    · rintro ⟨r, hr, hrx⟩
+      obtain ⟨f, hf, hpf⟩ := m1 r hr
+      exact ⟨f, hf, r.1, by rw [hpf]; cases r; simp at hrx; simp [hrx]⟩
+    · rintro ⟨f, hf, e, hpf⟩
+      obtain ⟨r, hr, hpr⟩ := m2 f hf
+      rw [hpf] at hpr
+      cases hpr
+      exact ⟨_, hr, rfl⟩
+
+theorem processField_mark_extends {S S' : Schema} (h : Extends S S') {M : Struct} {f : StructField} {e : FieldExt} {x : String}
+    (hp : processField S M f = .ok (e, some x)) : processField S' M f = .ok (e, some x) := by
+  unfold processField at *
+  cases hft : f.fieldType with
+  | named n =>
+    simp only [hft] at hp
+    cases hl : Schema.lookup S n <;> simp [hl, pure, Except.pure] at hp
+  | int t => simp [hft, pure, Except.pure] at hp
+  | array a =>
+    simp only [hft] at hp ⊢
+    by_cases hd : a.displayType = .typedArray
+    · simp only [hd, if_true] at hp ⊢
+      cases he : a.elementType with
+      | int t => simp [he, throw, throwThe, MonadExceptOf.throw] at hp
+      | named n =>
+        simp only [he] at hp ⊢
+        cases hl : Schema.lookup S n with
+        | none => simp [hl, throw, throwThe, MonadExceptOf.throw] at hp
+        | some d =>
+          rw [h.lookup n d hl]
+          simpa [hl] using hp
+    · simp [hd, pure, Except.pure] at hp
+
+theorem mem_structs_iff {S : Schema} {M : Struct} : M ∈ S.structs ↔ Decl.struct M ∈ S := by
+  unfold Schema.structs
+  simp only [List.mem_filterMap]
+  constructor
+  · rintro ⟨d, hd, hds⟩
+    cases d with
+    | struct M' => simp [Decl.struct?] at hds; subst hds; exact hd
+    | alias a => simp [Decl.struct?] at hds
+    | enum e => simp [Decl.struct?] at hds
+  · intro h; exact ⟨_, h, rfl⟩
+
+/-- the seeds: what some struct of the schema contributes -/
+theorem mem_unalignedSeeds {S : Schema} {seeds : List String} (h : unalignedSeeds S = .ok seeds) (x : String) :
+    (x ∈ seeds ↔ ∃ M, Decl.struct M ∈ S ∧ ∃ f ∈ M.structFields, ∃ e, processField S M f = .ok (e, some x)) ∧
+    (∀ M, Decl.struct M ∈ S → ∃ exts marks, processStruct S M = .ok (exts, marks)) := by
+  unfold unalignedSeeds at h
+  obtain ⟨per, hper, hp⟩ := dbind_eq_ok.mp h
+  simp [pure, Except.pure] at hp
+  subst hp
+  obtain ⟨m1, m2⟩ := mapM_ok_mem _ _ hper
+  have hsucc : ∀ M, Decl.struct M ∈ S → ∃ exts marks, processStruct S M = .ok (exts, marks) := by
+    intro M hM
+    obtain ⟨marks, _, hpm⟩ := m2 M (mem_structs_iff.mpr hM)
+    cases hps : processStruct S M with
+    | error e => simp [hps, Functor.map, Except.map] at hpm
+    | ok r => exact ⟨r.1, r.2, rfl⟩
+  refine ⟨?_, hsucc⟩
+  simp only [List.mem_flatten]
+  constructor
+  · rintro ⟨marks, hmarks, hx⟩
+    obtain ⟨M, hM, hpm⟩ := m1 marks hmarks
+    cases hps : processStruct S M with
+    | error e => simp [hps, Functor.map, Except.map] at hpm
+    | ok r =>
+      obtain ⟨exts, mk⟩ := r
+      simp [hps, Functor.map, Except.map] at hpm
+      subst hpm
+      exact ⟨M, mem_structs_iff.mp hM, (processStruct_marks hps x).mp hx⟩
+  · rintro ⟨M, hM, hf⟩
+    obtain ⟨marks, hmarks, hpm⟩ := m2 M (mem_structs_iff.mpr hM)
+    cases hps : processStruct S M with
+    | error e => simp [hps, Functor.map, Except.map] at hpm
+    | ok r =>
+      obtain ⟨exts, mk⟩ := r
+      simp [hps, Functor.map, Except.map] at hpm
+      subst hpm
+      exact ⟨_, hmarks, (processStruct_marks hps x).mpr hf⟩
+
+theorem unalignedSeeds_extends {S S' : Schema} (h : Extends S S') {seeds seeds' : List String}
+    (hs : unalignedSeeds S = .ok seeds) (hs' : unalignedSeeds S' = .ok seeds') : ∀ x ∈ seeds, x ∈ seeds' := by
+  intro x hx
+  obtain ⟨M, hM, f, hf, e, hpf⟩ := ((mem_unalignedSeeds hs x).1).mp hx
+  exact ((mem_unalignedSeeds hs' x).1).mpr ⟨M, h.structs M hM, f, hf, e, processField_mark_extends h hpf⟩
+
+/-- appending a declaration with a fresh name extends the schema -/
+theorem extends_append_fresh (S : Schema) (d : Decl) (hfresh : ∀ x ∈ S, x.name ≠ d.name) : Extends S (S ++ [d]) := by
+  refine ⟨?_, fun M hM => List.mem_append_left _ hM⟩
+  intro n x hx
+  unfold Schema.lookup at *
+  rw [List.reverse_append, List.find?_append]
+  have hxn : x.name = n := by simpa using List.find?_some hx
+  have hxm : x ∈ S := List.mem_reverse.mp (List.mem_of_find?_eq_some hx)
+  have : d.name ≠ n := by rw [← hxn]; exact (hfresh x hxm).symm
+  simp [this, hx]
+
 end SymbolVerif.Cats
